@@ -3,7 +3,7 @@ import itertools
 import random
 from datetime import datetime, timedelta
 
-from . import build as B, gen_hist, hist_run, treejson as TJ
+from . import build as B, gen_fuzz, gen_hist, hist_run, treejson as TJ
 from .build import ABSENT, BLANK
 from .core import Outcome, stable_hash
 from .treejson import E
@@ -196,10 +196,27 @@ def evaluate(pid, tier, seed):
     if pid in ('C15', 'C17'):
         cases += script_cases(tier, rng)
     cases += junk_cases()
+    # G-fuzz: structural mutations of those documents (look-alikes, blanked IDs, duplicates, re-tagged children)
+    fz = []
+    for lbl, doc in cases:
+        if rng.random() < (0.6 if tier == 'quick' else 3.0):
+            for _ in range(1 if tier == 'quick' else 3):
+                try:
+                    m = gen_fuzz.mutate(rng, doc)
+                    TJ.to_text(m)
+                    fz.append(('fuzz|' + lbl, m))
+                except Exception:  # noqa: BLE001
+                    pass
+    cases += fz
     entries = []       # (label, tree, impl_view, replay record)
     for lbl, doc in cases:
         text = TJ.to_text(doc)
-        ro = impl.load(text)
+        try:
+            ro = impl.load(text)
+        except Exception:  # noqa: BLE001 - a mutation can make the document unclassifiable
+            continue
+        if type(ro).__name__ != 'RunningOrder':
+            continue
         entries.append((lbl, TJ.parse(text), read_view(ro), {'kind': 'access', 'ro_text': text, 'label': lbl}))
     # every state of live histories, read on the live object after each step
     n_hist = 60 if tier == 'quick' else 600
